@@ -1,4 +1,6 @@
 import I18n.Lemmas.MsgTags
+import I18n.Lemmas.MsgFlagRules
+import I18n.Lemmas.MsgLive
 /-
 C16 — message-level diagnostics match their documented conditions.
 
@@ -245,5 +247,348 @@ theorem unusual_character_in_translation_iff {env : Env} (hs : Sane env) (ctx : 
       refine ⟨_, (mem_unusualTags hs pre e _ _ _).mpr ⟨d, s, r, names, h1, by simpa using h2, by simpa using hn, rfl⟩, ?_⟩
       simp
   simp [key]
+
+/-! ### flags -/
+
+/-- the flag tags of an entry are those of its flag list -/
+theorem has_flag_tag (env : Env) (ctx : Ctx) (pre : List Entry) (e : Entry) (t : MTag) (ht : t ∈ MTag.ofCheckMessageFlags) :
+    has t (entryTags env ctx pre e) = (isMessage e && has t (flagTags env.flag e)) := by
+  rw [has_entryTags]
+  have h1 : t ≠ .malformedXml := by rintro rfl; revert ht; decide
+  have h2 : t ≠ .unusualCharacterInTranslation := by rintro rfl; revert ht; decide
+  rw [has_xmlTags env ctx e t h1, has_unusualTags env pre e t h2]
+  cases hm : isMessage e
+  · simp
+  · have : ∀ t' : MTag, t' ∉ MTag.ofCheckMessageFlags → decide (t' = t) = false := by
+      intro t' h'; simp; rintro rfl; exact h' ht
+    simp [this .duplicateMessageDefinition (by decide), this .translationInTemplate (by decide),
+      this .strayPreviousMsgid (by decide), this .inconsistentLeadingNewlines (by decide),
+      this .inconsistentTrailingNewlines (by decide), this .conflictMarkerInTranslation (by decide),
+      this .partiallyTranslatedMessage (by decide)]
+
+/-- `unknown-message-flag` ⇔ some flag is none of `fuzzy`, `wrap`, `no-wrap`, `markdown-text`, a `range:` flag, or
+    `[no-|possible-|impossible-]<fmt>-format` with `<fmt>` in data/string-formats -/
+theorem unknown_message_flag_iff (env : FlagEnv) (e : Entry) :
+    has .unknownMessageFlag (flagTags env e) = true ↔ ∃ f ∈ e.flags, flagKind env f = .unknown := by
+  rw [has_flagTags_perFlag env e _ (by decide) (by decide) (by decide)]
+  simp [has_unknown_perFlag]
+
+/-- `invalid-range-flag` ⇔ some `range:` flag is not `<int>..<int>` with min < max -/
+theorem invalid_range_flag_iff (env : FlagEnv) (e : Entry) :
+    has .invalidRangeFlag (flagTags env e) = true ↔ ∃ f ∈ e.flags, flagKind env f = .range none := by
+  rw [has_flagTags_perFlag env e _ (by decide) (by decide) (by decide)]
+  simp [has_invalidRange_perFlag]
+
+/-- `range-flag-without-plural-string` ⇔ a `range:` flag (valid or not) on a message without msgid_plural -/
+theorem range_flag_without_plural_string_iff (env : FlagEnv) (e : Entry) :
+    has .rangeFlagWithoutPluralString (flagTags env e) = true ↔
+      e.msgidPlural = none ∧ ∃ f ∈ e.flags, (flagKind env f).isRange = true := by
+  rw [has_flagTags_perFlag env e _ (by decide) (by decide) (by decide)]
+  simp [has_rangeWithoutPlural_perFlag]
+  constructor
+  · rintro ⟨f, hf, hp, hr⟩; exact ⟨hp, f, hf, hr⟩
+  · rintro ⟨hp, f, hf, hr⟩; exact ⟨f, hf, hp, hr⟩
+
+/-- `redundant-message-flag` ⇔ the same format is flagged both positively (`<fmt>-format`) and `possible-` -/
+theorem redundant_message_flag_iff {env : Env} (hs : Sane env) (e : Entry) :
+    has .redundantMessageFlag (flagTags env.flag e) = true ↔
+      ∃ fmt, (∃ f ∈ e.flags, flagKind env.flag f = .format [] fmt) ∧
+             (∃ f ∈ e.flags, flagKind env.flag f = .format (lit "possible") fmt) := by
+  simp only [flagTags, has_append, has_rangeTail_false env.flag e _ .redundantMessageFlag (by decide) (by decide),
+    has_positivePairs_false env.flag e _ .redundantMessageFlag (by decide),
+    has_conflictLoop_false env.flag e _ .redundantMessageFlag (by decide), Bool.or_false, Bool.or_eq_true,
+    has_redundantLoop hs, mem_keysOf_formatDict']
+  have : has .redundantMessageFlag ((toSorted strLt e.flags).flatMap (perFlag env.flag e e.flags)) = false := by
+    rw [has_flatMap, List.any_eq_false]; intro f _
+    simp only [perFlag]; split <;> (try split) <;> simp
+  simp [this]
+
+/-- `conflicting-message-flags` ⇔ `wrap` + `no-wrap`, or two different valid ranges, or two positive formats with no
+    common example directive, or the same format positive + `no-`, positive + `impossible-`, `possible-` + `impossible-`
+    (the pairs are data: `conflictPairs`) -/
+theorem conflicting_message_flags_iff (env : FlagEnv) (e : Entry) :
+    has .conflictingMessageFlags (flagTags env e) = true ↔
+      (lit "wrap" ∈ e.flags ∧ lit "no-wrap" ∈ e.flags) ∨
+      (∃ f ∈ e.flags, ∃ g ∈ e.flags, ∃ r₁ r₂, rangeOf env f = some r₁ ∧ rangeOf env g = some r₂ ∧ r₁ ≠ r₂) ∨
+      (∃ fmt₁ fmt₂, (∃ f ∈ e.flags, flagKind env f = .format [] fmt₁) ∧ (∃ f ∈ e.flags, flagKind env f = .format [] fmt₂) ∧
+          strLt fmt₁ fmt₂ = true ∧ shareExample env fmt₁ fmt₂ = false) ∨
+      (∃ pn ∈ env.conflictPairs, ∃ fmt, (∃ f ∈ e.flags, flagKind env f = .format pn.1 fmt) ∧
+          (∃ f ∈ e.flags, flagKind env f = .format pn.2 fmt)) := by
+  have hnd : (keysOf (rangeDict env e.flags (toSorted strLt e.flags))).Nodup :=
+    nodup_keysOf_rangeDict env e.flags (toSorted strLt e.flags) [] (by simp [keysOf])
+  simp only [flagTags, has_append, has_redundantLoop_false env e _ .conflictingMessageFlags (by decide), Bool.or_false,
+    Bool.or_eq_true, has_conflictLoop, has_positivePairs, has_conflicting_rangeTail env e _ hnd, decide_eq_true_eq,
+    rangeDict_length, mem_keysOf_formatFlagsOf, mem_keysOf_formatDict', has_flatMap, List.any_eq_true, mem_toSorted,
+    has_conflicting_perFlag, Bool.and_eq_true, List.contains_eq_mem]
+  constructor
+  · rintro (((⟨f, hf, rfl, hn⟩ | h) | ⟨f1, h1, f2, h2, h3, h4⟩) | h)
+    · exact Or.inl ⟨hf, hn⟩
+    · exact Or.inr (Or.inl h)
+    · exact Or.inr (Or.inr (Or.inl ⟨f1, f2, h1, h2, h3, h4⟩))
+    · exact Or.inr (Or.inr (Or.inr h))
+  · rintro (⟨hw, hn⟩ | h | ⟨f1, f2, h1, h2, h3, h4⟩ | h)
+    · exact Or.inl (Or.inl (Or.inl ⟨_, hw, rfl, hn⟩))
+    · exact Or.inl (Or.inl (Or.inr h))
+    · exact Or.inl (Or.inr ⟨f1, h1, f2, h2, h3, h4⟩)
+    · exact Or.inr h
+
+/-- `duplicate-message-flag` ⇔ a non-empty flag that is not a valid range flag occurs more than once, or all valid range
+    flags designate ONE range and together occur more than once (range flags are counted per range; the dictionary
+    `rangeDict` maps each range to the multiplicities of its spellings) -/
+theorem duplicate_message_flag_iff (env : FlagEnv) (e : Entry) :
+    has .duplicateMessageFlag (flagTags env e) = true ↔
+      (∃ f ∈ e.flags, e.flags.count f > 1 ∧ f ≠ [] ∧ rangeOf env f = none) ∨
+      (∃ r c, rangeDict env e.flags (toSorted strLt e.flags) = [(r, c)] ∧ (c.map (·.2)).sum > 1) := by
+  simp only [flagTags, has_append, has_redundantLoop_false env e _ .duplicateMessageFlag (by decide),
+    has_conflictLoop_false env e _ .duplicateMessageFlag (by decide),
+    has_positivePairs_false env e _ .duplicateMessageFlag (by decide), Bool.or_false, Bool.or_eq_true,
+    has_flatMap, List.any_eq_true, mem_toSorted, has_duplicate_perFlag, Bool.and_eq_true, decide_eq_true_eq]
+  have : has .duplicateMessageFlag (rangeTail env e (rangeDict env e.flags (toSorted strLt e.flags))) = true ↔
+      ∃ r c, rangeDict env e.flags (toSorted strLt e.flags) = [(r, c)] ∧ (c.map (·.2)).sum > 1 := by
+    generalize rangeDict env e.flags (toSorted strLt e.flags) = rd
+    simp only [rangeTail]
+    split
+    · rename_i h
+      constructor
+      · split <;> simp
+      · rintro ⟨r, c, rfl, _⟩; simp at h
+    · split
+      · rename_i _ k c _
+        by_cases hs : (c.map (·.2)).sum > 1
+        · simp only [hs, if_true]
+          exact ⟨fun _ => ⟨k, c, rfl, hs⟩, fun _ => by simp⟩
+        · simp only [hs, if_false, has_nil, Bool.false_eq_true, false_iff]
+          rintro ⟨r, c', h, hs'⟩
+          simp only [List.cons.injEq, Prod.mk.injEq, and_true] at h
+          obtain ⟨rfl, rfl⟩ := h
+          exact hs hs'
+      · rename_i h
+        simp only [has_nil, Bool.false_eq_true, false_iff]
+        rintro ⟨r, c, rfl, _⟩; exact h r c rfl
+  rw [this]
+  constructor
+  · rintro (⟨f, hf, ⟨h1, h2⟩, h3⟩ | h)
+    · exact Or.inl ⟨f, hf, h1, h2, h3⟩
+    · exact Or.inr h
+  · rintro (⟨f, hf, h1, h2, h3⟩ | h)
+    · exact Or.inl ⟨f, hf, ⟨h1, h2⟩, h3⟩
+    · exact Or.inr h
+
+/-- what kinds of flags there are (the `unknown` case of `flagKind` is the complement) -/
+theorem flag_kind_known (env : FlagEnv) (f : Str) :
+    flagKind env f ≠ .unknown ↔
+      f = lit "fuzzy" ∨ f = lit "wrap" ∨ f = lit "no-wrap" ∨ f = lit "markdown-text" ∨ startsWith env.rangePrefix f = true ∨
+        (endsWith formatSuffix f = true ∧ (classifyFormat env f env.prefixes).isSome) := by
+  unfold flagKind
+  by_cases h1 : f = lit "fuzzy"
+  · simp [h1]
+  by_cases h2 : f = lit "wrap"
+  · subst h2; simp [fuzzy_ne_wrap.symm]
+  by_cases h3 : f = lit "no-wrap"
+  · subst h3; simp [fuzzy_ne_nowrap.symm, wrap_ne_nowrap.symm]
+  by_cases h4 : startsWith env.rangePrefix f = true
+  · simp [h1, h2, h3, h4]
+  by_cases h5 : endsWith formatSuffix f = true
+  · cases hc : classifyFormat env f env.prefixes with
+    | none => simp [h1, h2, h3, h4, h5]; intro h6; subst h6; revert h5; decide
+    | some x => simp [h1, h2, h3, h4, h5]
+  · by_cases h6 : f = lit "markdown-text"
+    · subst h6
+      simp [h4, h5, show lit "markdown-text" ≠ lit "fuzzy" by decide, show lit "markdown-text" ≠ lit "wrap" by decide,
+        show lit "markdown-text" ≠ lit "no-wrap" by decide]
+    · simp [h1, h2, h3, h4, h5, h6]
+
+/-! ### XML -/
+
+/-- `malformed-xml` ⇔ the extracted comment is `type: Content of: <name>…`, a charset is usable, and expat rejects the
+    reported string: the msgid (reported in POT files only), or — the msgid being well-formed — the msgstr of a non-fuzzy
+    message with a non-empty msgstr -/
+theorem malformed_xml_iff (env : Env) (ctx : Ctx) (pre : List Entry) (e : Entry) :
+    has .malformedXml (entryTags env ctx pre e) = true ↔
+      isMessage e = true ∧ env.xmlGate e.comment = true ∧ ctx.hasEncoding = true ∧
+        ((ctx.isTemplate = true ∧ ∃ msg, env.xml e.msgid = .syntaxError msg) ∨
+         (env.xml e.msgid = .ok ∧ lit "fuzzy" ∉ e.flags ∧ e.hasMsgstr = true ∧ ∃ msg, env.xml (e.msgstr.getD []) = .syntaxError msg)) := by
+  rw [has_entryTags]
+  simp only [has_flagTags_false env.flag e .malformedXml (by decide), has_unusualTags env pre e .malformedXml (by decide)]
+  have : has .malformedXml (xmlTags env ctx e) = true ↔
+      env.xmlGate e.comment = true ∧ ctx.hasEncoding = true ∧
+        ((ctx.isTemplate = true ∧ ∃ msg, env.xml e.msgid = .syntaxError msg) ∨
+         (env.xml e.msgid = .ok ∧ lit "fuzzy" ∉ e.flags ∧ e.hasMsgstr = true ∧ ∃ msg, env.xml (e.msgstr.getD []) = .syntaxError msg)) := by
+    simp only [xmlTags]
+    by_cases hg : env.xmlGate e.comment = true <;> by_cases he : ctx.hasEncoding = true <;> simp [hg, he]
+    cases h1 : env.xml e.msgid with
+    | other => simp
+    | syntaxError msg => simp
+    | ok =>
+      by_cases hf : fuzzy e = true <;> by_cases hm : e.hasMsgstr = true
+      · have : lit "fuzzy" ∈ e.flags := by simpa [fuzzy] using hf
+        simp [hf, this]
+      · have : lit "fuzzy" ∈ e.flags := by simpa [fuzzy] using hf
+        simp [hf, this]
+      · have hf' : lit "fuzzy" ∉ e.flags := by simpa [fuzzy] using hf
+        simp only [hf, hm, hf']
+        cases h2 : env.xml (e.msgstr.getD []) <;> simp
+      · simp [hm]
+  simp [this]
+
+/-- `malformed-xml` only for strings that are not well-formed XML content -/
+theorem malformed_xml_only_if (env : Env) (ctx : Ctx) (pre : List Entry) (e : Entry)
+    (h : has .malformedXml (entryTags env ctx pre e) = true) :
+    ∃ s msg, (s = e.msgid ∨ e.msgstr = some s) ∧ env.xml s = .syntaxError msg := by
+  obtain ⟨_, _, _, ⟨_, msg, hm⟩ | ⟨_, _, hs, msg, hm⟩⟩ := (malformed_xml_iff env ctx pre e).mp h
+  · exact ⟨_, msg, Or.inl rfl, hm⟩
+  · refine ⟨_, msg, Or.inr ?_, hm⟩
+    cases hms : e.msgstr with
+    | none => simp [Entry.hasMsgstr, hms] at hs
+    | some s => simp
+
+/-! ### exemptions -/
+
+/-- obsolete entries and header entries get no message-level diagnostic, and do not count as definitions -/
+theorem obsolete_exempt (env : Env) (ctx : Ctx) (pre : List Entry) (e : Entry) (h : e.obsolete = true) :
+    entryTags env ctx pre e = [] ∧ ∀ e', earlierSame (pre ++ [e]) e' = earlierSame pre e' := by
+  have : isMessage e = false := by simp [isMessage, h]
+  exact ⟨by simp [entryTags, this], fun e' => by simp [earlierSame, List.filter_append, this]⟩
+
+theorem header_entry_exempt (env : Env) (ctx : Ctx) (pre : List Entry) (e : Entry) (h1 : e.msgid = []) (h2 : e.msgctxt = none) :
+    entryTags env ctx pre e = [] := by
+  have : isMessage e = false := by simp [isMessage, h1, h2]
+  simp [entryTags, this]
+
+/-- fuzzy messages are exempt from: conflict-marker-in-translation, partially-translated-message, the translation part of
+    the newline checks (only msgid_plural is compared), malformed-xml of the msgstr; and `stray-previous-msgid` is exactly
+    about non-fuzzy messages.  They are NOT exempt from the other tags. -/
+theorem fuzzy_exemptions (env : Env) (ctx : Ctx) (pre : List Entry) (e : Entry) (hf : lit "fuzzy" ∈ e.flags) :
+    has .conflictMarkerInTranslation (entryTags env ctx pre e) = false ∧
+    has .partiallyTranslatedMessage (entryTags env ctx pre e) = false ∧
+    has .strayPreviousMsgid (entryTags env ctx pre e) = false ∧
+    considered e = e.pluralList ∧
+    (has .malformedXml (entryTags env ctx pre e) = true → ctx.isTemplate = true ∧ ∃ msg, env.xml e.msgid = .syntaxError msg) := by
+  have hfz : fuzzy e = true := by simpa [fuzzy] using hf
+  refine ⟨?_, ?_, ?_, ?_, ?_⟩
+  · rw [Bool.eq_false_iff]; intro h; exact ((conflict_marker_in_translation_iff env ctx pre e).mp h).2.1 hf
+  · rw [Bool.eq_false_iff]; intro h; exact ((partially_translated_message_iff env ctx pre e).mp h).2.1 hf
+  · rw [Bool.eq_false_iff]; intro h; exact ((stray_previous_msgid_iff env ctx pre e).mp h).2.2 hf
+  · simp [considered, hfz]
+  · intro h
+    obtain ⟨_, _, _, h | h⟩ := (malformed_xml_iff env ctx pre e).mp h
+    · exact h
+    · exact absurd hf h.2.1
+
+/-! ### a clean catalog -/
+
+/-- none of the rules fires for the entry `e` after `pre` -/
+structure CleanEntry (env : Env) (ctx : Ctx) (pre : List Entry) (e : Entry) : Prop where
+  flags : flagTags env.flag e = []
+  xml : xmlTags env ctx e = []
+  unique : earlierSame pre e ≠ 1
+  template : ¬(ctx.isTemplate = true ∧ hasTranslation e = true)
+  previous : ¬((e.prevMsgctxt.isSome ∨ e.prevMsgid.isSome ∨ e.prevMsgidPlural.isSome) ∧ lit "fuzzy" ∉ e.flags)
+  leading : ∀ s ∈ considered e, leadingLf s = leadingLf e.msgid
+  trailing : ∀ s ∈ considered e, trailingLf s = trailingLf e.msgid
+  unusual : ctx.hasEncoding = true → ∀ d s r, translations e = d ++ s :: r → reported env pre e d s = []
+  marker : lit "fuzzy" ∉ e.flags → ∀ s ∈ translations e, env.searchMarker s = none
+  complete : lit "fuzzy" ∉ e.flags → ¬((∃ s ∈ e.forms, s ≠ []) ∧ ∃ s ∈ e.forms, s = [])
+
+theorem unusualTags_nil (env : Env) (pre : List Entry) (e : Entry) : ∀ (rest done : List Str),
+    (∀ d s r, rest = d ++ s :: r → reported env pre e (done ++ d) s = []) → unusualTags env pre e done rest = []
+  | [], _, _ => rfl
+  | s :: rest, done, h => by
+    have h0 := h [] s rest rfl
+    simp only [List.append_nil] at h0
+    simp only [unusualTags, h0, List.isEmpty_nil, if_true, List.nil_append]
+    apply unusualTags_nil env pre e rest (done ++ [s])
+    intro d s' r hr
+    have := h (s :: d) s' r (by simp [hr])
+    simpa using this
+
+/-- a message violating none of the rules yields no message-level diagnostic: only the dispatch to the format checkers -/
+theorem clean_entry_silent (env : Env) (ctx : Ctx) (pre : List Entry) (e : Entry) (h : CleanEntry env ctx pre e) :
+    entryTags env ctx pre e = if isMessage e then dispatch env e else [] := by
+  obtain ⟨h1, h2, h3, h4, h5, h6, h7, h8, h9, h10⟩ := h
+  unfold entryTags
+  cases hm : isMessage e
+  · simp
+  · have e3 : decide (earlierSame pre e = 1) = false := by simpa using h3
+    have e4 : (ctx.isTemplate && hasTranslation e) = false := by
+      cases ha : ctx.isTemplate <;> cases hb : hasTranslation e <;> simp_all
+    have e6 : ((considered e).any fun s => leadingLf s != leadingLf e.msgid) = false := by
+      rw [List.any_eq_false]; intro s hs; simp [h6 s hs]
+    have e7 : ((considered e).any fun s => trailingLf s != trailingLf e.msgid) = false := by
+      rw [List.any_eq_false]; intro s hs; simp [h7 s hs]
+    have e8 : (if ctx.hasEncoding = true then unusualTags env pre e [] (translations e) else []) = [] := by
+      split
+      · rename_i henc; exact unusualTags_nil env pre e _ _ (by simpa using h8 henc)
+      · rfl
+    by_cases hf : lit "fuzzy" ∈ e.flags
+    · have hfz : fuzzy e = true := by simpa [fuzzy] using hf
+      have e5 : ((e.prevMsgctxt.isSome || e.prevMsgid.isSome || e.prevMsgidPlural.isSome) && !fuzzy e) = false := by simp [hfz]
+      simp only [h1, h2, e3, e4, e5, e6, e7, e8, rule, Bool.not_true, Bool.false_eq_true, if_false, if_true, List.append_nil,
+        List.nil_append]
+      simp [hfz]
+    · have hfz : fuzzy e = false := by simpa [fuzzy] using hf
+      have e5 : ((e.prevMsgctxt.isSome || e.prevMsgid.isSome || e.prevMsgidPlural.isSome) && !fuzzy e) = false := by
+        have := h5
+        cases ha : e.prevMsgctxt.isSome <;> cases hb : e.prevMsgid.isSome <;> cases hc : e.prevMsgidPlural.isSome <;> simp_all
+      have e9 : firstMarker env e = none := by
+        simp only [firstMarker, List.findSome?_eq_none_iff]; exact h9 hf
+      have e10 : (someForm e && e.forms.any (· = [])) = false := by
+        rw [Bool.eq_false_iff]; intro h
+        simp only [Bool.and_eq_true, someForm, List.any_eq_true, decide_eq_true_eq] at h
+        exact h10 hf ⟨h.1, h.2⟩
+      simp only [h1, h2, e3, e4, e5, e6, e7, e8, e9, e10, rule, Bool.not_true, Bool.false_eq_true, if_false, if_true,
+        List.append_nil, List.nil_append, markerTag]
+      simp [hfz]
+
+/-- CLEAN ⇒ SILENT: a catalog (with at least one message) violating none of the rules yields no message-level tag:
+    everything `check_messages` emits is a dispatch to a format checker -/
+theorem clean_catalog_silent {env : Env} (hs : Sane env) (ctx : Ctx) (file : List Entry)
+    (hclean : ∀ pre e post, file = pre ++ e :: post → CleanEntry env ctx pre e) (hne : ∃ e ∈ file, isMessage e = true) :
+    ∀ x ∈ checkMessages env ctx file, ∃ n i, x = .fmt n i := by
+  rw [check_messages_eq hs]
+  intro x hx
+  simp only [messageRules, List.mem_append, List.mem_flatten] at hx
+  rcases hx with ⟨l, hl, hx⟩ | hx
+  · have : ∀ (rest pre : List Entry), (∀ p e q, rest = p ++ e :: q → CleanEntry env ctx (pre ++ p) e) →
+        l ∈ entriesFrom env ctx pre rest → ∃ n i, x = .fmt n i := by
+      intro rest
+      induction rest with
+      | nil => intro pre _ h; simp [entriesFrom] at h
+      | cons e rest ih =>
+        intro pre hc h
+        simp only [entriesFrom, List.mem_cons] at h
+        rcases h with rfl | h
+        · have := clean_entry_silent env ctx pre e (by simpa using hc [] e rest rfl)
+          rw [this] at hx
+          split at hx
+          · simp only [dispatch, List.mem_map] at hx
+            obtain ⟨f, _, rfl⟩ := hx
+            exact ⟨_, _, rfl⟩
+          · simp at hx
+        · exact ih (pre ++ [e]) (fun p e' q hr => by
+            have := hc (e :: p) e' q (by simp [hr])
+            simpa using this) h
+    exact this file [] (fun p e q hr => by simpa using hclean p e q hr) hl
+  · obtain ⟨e, he, hm⟩ := hne
+    have : file.any isMessage = true := List.any_eq_true.mpr ⟨e, he, hm⟩
+    simp [fileTags, rule, this] at hx
+
+/-! ### no crash -/
+
+/-- no exception leaves the message checks in a sane environment; the observable run is the whole rule set -/
+theorem msg_nocrash {env : Env} (hs : Sane env) (ctx : Ctx) (file : List Entry) :
+    (∀ x, Emit.crash x ∉ checkMessages env ctx file) ∧
+    run env ctx file = (messageRules env ctx file).1.flatten ++ (messageRules env ctx file).2 := by
+  have h := noCrash_checkMessages hs ctx file
+  exact ⟨noCrash_iff.mp h, by rw [run, observe_of_noCrash h, check_messages_eq hs]⟩
+
+/-- the environment regenerated from /repo is sane whatever strings expat is asked about, provided expat raises nothing
+    but `ExpatError` (its documented behaviour on `str` input that encodes to UTF-8) -/
+theorem live_env_sane (xml : Str → XmlVerdict) (hx : ∀ s, xml s ≠ .other) : Sane (liveEnv xml) := live_sane xml hx
+
+/-- hence for the running tool's tables: no exception, and the emitted tags are the rule set's -/
+theorem live_message_tags (xml : Str → XmlVerdict) (hx : ∀ s, xml s ≠ .other) (ctx : Ctx) (file : List Entry) :
+    run (liveEnv xml) ctx file = (messageRules (liveEnv xml) ctx file).1.flatten ++ (messageRules (liveEnv xml) ctx file).2 :=
+  (msg_nocrash (live_sane xml hx) ctx file).2
 
 end I18n.Props.C16
